@@ -25,6 +25,7 @@ type Config struct {
 	InMemory  bool    `json:"inmemory,omitempty"`
 	CheckEvery int    `json:"check_every,omitempty"` // full-contents check every n ops (default 1)
 	Mirror    string  `json:"mirror,omitempty"` // "file": every completed Store is also written through the real file store to a scratch directory
+	Extra     string  `json:"extra,omitempty"` // generator note ("giant": one node of hundreds of entries)
 	CmpScale  int     `json:"cmpscale,omitempty"` // loader KeyCompare returns CmpScale * sign (a comparator need not return exactly -1/0/1)
 }
 
